@@ -444,7 +444,18 @@ func visitInstr(fr *frame, instr ssa.Instruction) continuation {
 		}
 		st, ok := (*p).(structure)
 		if !ok {
-			st = i.unpackSpecial(p, mustDeref(instr.X.Type()))
+			func() {
+				defer func() {
+					if r := recover(); r != nil {
+						if ea, ok := r.(engineAbort); ok && ea.kind == abUnsupported {
+							ea.msg += " [in " + stackOf(fr, 5) + "]"
+							panic(ea)
+						}
+						panic(r)
+					}
+				}()
+				st = i.unpackSpecial(p, mustDeref(instr.X.Type()))
+			}()
 		}
 		fr.set(instr, &st[instr.Field])
 
@@ -616,7 +627,7 @@ func callSSAx(i *interpreter, caller *frame, callpos token.Pos, fn *ssa.Function
 			return nil
 		}
 		if fn.Blocks == nil {
-			unsupported("no code for function: %s", name)
+			unsupported("no code for function: %s [called from %s]", name, stackOf(caller, 5))
 		}
 	}
 	if fn.TypeParams().Len() > 0 && len(fn.TypeArgs()) == 0 {
